@@ -3,3 +3,5 @@
 package main
 
 func c17extra(s *c17state, in []byte) {}
+
+func c17cut(s *c17state, ev []byte, k int) {}
